@@ -345,7 +345,8 @@ def ob_add(P, K, hooks=None, mode="live"):
             if b is None:
                 cx.emit(["C10"], "ensures:rejects-non-" + K, p, s, z3.BoolVal(False))
                 continue
-            cx.emit(["C10"], "ensures:compatible", p, s, lambda s2: specs_compat(s2, K, pre, selfv, other))
+            for part in compat_part_names(K):
+                cx.emit(["C10"], "ensures:compatible-" + part, p, s, lambda s2, part=part: specs_compat(s2, K, pre, selfv, other, part))
             cx.emit(["C06"], "ensures:fresh", p, s, lambda s2: fresh_goal(s2, K, r.v))
             cx.emit(["C06"], "ensures:frame", p, s, lambda s2: frame_goal(s2, pre))
             cx.emit(["C01", "C08", "C04"], "ensures:wf", p, s, lambda s2: wf_goal(s2, K, r.v))
@@ -357,12 +358,19 @@ def ob_add(P, K, hooks=None, mode="live"):
     return out
 
 
-def specs_compat(st, K, pre, selfv, other):
+def specs_compat(st, K, pre, selfv, other, part=None):
     a, b = view_of(pre, selfv, K), view_of(pre, other, K)
-    extra = []
+    parts = specs.compat_parts(K, st, a, b)
     if K in ("SparselyBin", "Categorize"):
-        extra.append(content_shape(pre, selfv) == content_shape(pre, other))
-    return z3.And([specs.compat(K, st, a, b)] + extra)
+        # the content type of a (possibly still empty) sparse container is structure
+        parts["content-type"] = [content_shape(pre, selfv) == content_shape(pre, other)]
+    if part is not None:
+        return z3.And(parts.get(part) or [z3.BoolVal(True)])
+    return z3.And([x for v in parts.values() for x in v] or [z3.BoolVal(True)])
+
+
+def compat_part_names(K):
+    return ["params", "children"] + (["content-type"] if K in ("SparselyBin", "Categorize") else [])
 
 
 def content_shape(st, v):
@@ -415,7 +423,8 @@ def ob_iadd(P, K, hooks=None, mode="live"):
             if b is None:
                 cx.emit(["C10"], "ensures:rejects-non-" + K, p, s, z3.BoolVal(False))
                 continue
-            cx.emit(["C10"], "ensures:compatible", p, s, lambda s2: specs_compat(s2, K, pre, selfv, other))
+            for part in compat_part_names(K):
+                cx.emit(["C10"], "ensures:compatible-" + part, p, s, lambda s2, part=part: specs_compat(s2, K, pre, selfv, other, part))
             cx.emit(["C07"], "ensures:same-object", p, s, z3.BoolVal(isinstance(r.v, VObj) and r.v.oid == selfv.oid))
             cx.emit(["C07"], "ensures:view", p, s, lambda s2: plus_goal(s2, K, a, b, view_of(s2, selfv, K)))
             cx.emit(["C07"], "ensures:wf", p, s, lambda s2: wf_goal(s2, K, selfv))
